@@ -197,6 +197,29 @@ class CallGraph:
                                 for name, meth in c.methods.items():
                                     if rx.fullmatch(name) and meth.qual not in callees:
                                         callees.append(meth.qual)
+                    elif pat is None and f.cls and isinstance(n.args[1], ast.Name) and isinstance(n.args[0], ast.Name) and n.args[0].id in ("self", "cls"):
+                        # getattr(self, name) with the name taken from a table of the class: every string constant of a
+                        # class-level table (of the class or its bases) that names a method may be meant
+                        names: set[str] = set()
+                        for q in prog.mro(f.cls.qual):
+                            c = prog.classes.get(q)
+                            if not c:
+                                continue
+                            for sts in c.assigns.values():
+                                for st in sts:
+                                    v = getattr(st, "value", None)
+                                    if v is not None:
+                                        names |= {x.value for x in ast.walk(v) if isinstance(x, ast.Constant) and isinstance(x.value, str) and x.value.isidentifier()}
+                        if names:
+                            kind = "reflective"
+                            for cq in prog.subclasses(f.cls.qual):
+                                for q in prog.mro(cq):
+                                    c = prog.classes.get(q)
+                                    if not c:
+                                        continue
+                                    for name, meth in c.methods.items():
+                                        if name in names and meth.qual not in callees:
+                                            callees.append(meth.qual)
                 if callees:
                     self.n_resolved += 1
                 else:
